@@ -34,7 +34,8 @@ ROUTES = ('ctor', 'call', 'set_val', 'setitem', 'setitem_int')
 INT_ELEMS = ('np.int8', 'np.int16', 'np.int32', 'np.int64', 'np.uint8', 'np.uint16', 'np.uint32', 'np.uint64')
 FLT_ELEMS = ('np.float16', 'np.float32', 'np.float64', 'np.longdouble')
 ELEMS = ('int', 'float', 'str') + INT_ELEMS + FLT_ELEMS
-CONTS = ('scalar', '0d', '1d', '2d', 'list', 'nlist', 'tuple', 'ntuple')
+# 'nplist' / 'nptuple' / 'npnlist': python containers whose elements are numpy scalars (e.g. list(np_array))
+CONTS = ('scalar', '0d', '1d', '2d', 'list', 'nlist', 'tuple', 'ntuple', 'nplist', 'nptuple', 'npnlist')
 CPLX_ELEMS = ('complex', 'np.complex64', 'np.complex128')
 
 
@@ -88,8 +89,12 @@ def build(cont, elem, objs, shape2=None):
     if cont == '2d':
         a = np.array(objs, dtype=arr_dtype) if arr_dtype is not None else np.array(objs)
         return a.reshape(shape2)
-    plain = [o.item() if isinstance(o, np.generic) and elem != 'np.longdouble' else o for o in objs] \
-        if elem not in ('int', 'float', 'str') else list(objs)
+    if cont in ('nplist', 'nptuple', 'npnlist'):
+        plain = list(objs)                  # numpy scalars stay numpy scalars
+        cont = {'nplist': 'list', 'nptuple': 'tuple', 'npnlist': 'nlist'}[cont]
+    else:
+        plain = [o.item() if isinstance(o, np.generic) and elem != 'np.longdouble' else o for o in objs] \
+            if elem not in ('int', 'float', 'str') else list(objs)
     if cont == 'list':
         return list(plain)
     if cont == 'tuple':
@@ -127,7 +132,7 @@ def store(fmt, mode, obj, route, cont, n, shape2):
             x = F(zeros(3), s, w, f, **kw)
             x[1] = obj
             return x, ('idx', 1)
-        if cont in ('2d', 'nlist', 'ntuple'):
+        if cont in ('2d', 'nlist', 'ntuple', 'npnlist'):
             x = F(zeros((shape2[0] + 1, shape2[1])), s, w, f, **kw)
             x[1:] = obj
             return x, ('rows', 1)
@@ -444,12 +449,14 @@ def st_store_case(draw, max_w=52):
     elem = draw(st.sampled_from(ELEMS))
     # decimal strings travel alone or in lists/tuples; ndarrays of str are not a numeric dtype (outside the statement)
     cont = draw(st.sampled_from(CONTS if elem != 'str' else ('scalar', 'list', 'nlist', 'tuple', 'ntuple')))
+    if cont in ('nplist', 'nptuple', 'npnlist') and elem in ('int', 'float', 'np.longdouble'):
+        elem = draw(st.sampled_from(INT_ELEMS + ('np.float16', 'np.float32', 'np.float64')))
     route = draw(st.sampled_from(ROUTES))
     # core domain: |v| < 2^53 and |x| < 2^62
     lim = min(62, 53 + f) if f < 0 else 62
     n = 1 if cont in ('scalar', '0d') else draw(st.integers(1, 6))
     shape2 = None
-    if cont in ('2d', 'nlist', 'ntuple'):
+    if cont in ('2d', 'nlist', 'ntuple', 'npnlist'):
         r, c = draw(st.sampled_from([(1, 1), (1, 3), (2, 2), (3, 1), (2, 3)]))
         n, shape2 = r * c, [r, c]
     x4s = []
